@@ -32,8 +32,9 @@ OPEN_STATEMENTS = [
     'bk_interaction_sound (the InteractionOperator path, cases A-D, equals the FermionOperator path, also for '
     'n_qubits above the tensor size): NOT proved; correspondence + Spec oracle against the tensor formula + exact '
     'comparison with bravyi_kitaev(get_fermion_operator(.), n_qubits)',
-    'CAR / diagonal number operators / vacuum / isospectrality with JW are consequences of bk_term_exact + '
-    'bk_enc_injective in the Spec semantics (Spec CAR lemmas live with C01/C07); not restated here',
+    'isospectrality with Jordan-Wigner / preservation of expectation values are not restated: they follow from bk_exact / '
+    'tree_exact + injectivity of enc (the transformed operator is JW conjugated by the relabelling enc); CAR, diagonal '
+    'number operators and the vacuum ARE theorems (bk_car, bk_car_ann, bk_number_diagonal, bk_vacuum, tree_car)',
 ]
 
 
@@ -103,15 +104,18 @@ def stream_sets(ctx):
     bk, bkt, fw = mods(ctx)
     st = Stream('index-sets', '_update_set / _occupation_set / _parity_set for every index j < n, every n <= N '
                 '(N = 40 quick, 64 thorough, so all non-powers of two below N) and the FenwickTree update / children / '
-                'remainder / parity sets for every j < n <= Nt; Model compared exactly (lists for the tree); Spec '
+                'remainder / parity sets for every j < n <= Nt; Model compared exactly (as sets); Spec '
                 'oracle: the sets tile [0,j) / [lo j, j] and are exactly the qubits storing j; distinct = (variant,n,j)')
     b = Batch(ctx, st)
     N = budget(ctx.tier, 40, 64)
     Nt = budget(ctx.tier, 24, 40)
 
     def cmp_sets(st_, what, case, impl, mo):
-        if impl != mo:
+        # compared as sets: the order in which a set is listed is not part of the property
+        if {k: sorted(v) for k, v in impl.items()} != {k: sorted(v) for k, v in mo.items()}:
             st_.disagree(what + ': sets differ', case, impl, mo)
+        if any(len(set(v)) != len(v) for v in impl.values()):
+            st_.violate(what + ': an index occurs twice in a set', case, impl)
     for n in range(1, N + 1):
         for j in range(n):
             case = {'fn': '_update_set/_occupation_set/_parity_set', 'n': n, 'index': j}
@@ -154,11 +158,11 @@ def stream_ladder(ctx):
     of = ctx.of
     bk, bkt, fw = mods(ctx)
     st = Stream('ladder-images', 'bravyi_kitaev and bravyi_kitaev_tree of every single ladder operator a_j, a_j^dagger '
-                'and bravyi_kitaev of every Majorana operator, for every j < n, every n <= N (N = 20 quick, 40 '
+                'and bravyi_kitaev of every Majorana operator, for every j < n, every n <= N (N = 20 quick, 48 '
                 'thorough); Model compared exactly; Spec oracle on all 2^n occupation masks for n <= 9; '
                 'distinct = (variant, n, operator)')
     b = Batch(ctx, st)
-    N = budget(ctx.tier, 20, 40)
+    N = budget(ctx.tier, 20, 48)
     if ctx.drift:
         N = max(N, 28)
     for n in range(1, N + 1):
@@ -202,12 +206,12 @@ def stream_ladder(ctx):
 def stream_srl(ctx):
     bk, bkt, fw = mods(ctx)
     st = Stream('seeley-richard-love', '_qubit_operator_creation(*_seeley_richard_love(i, j, c, n)) for ALL i, j < n, '
-                'all n <= N (N = 14 quick, 24 thorough) with a complex dyadic coefficient; Model compared exactly (the '
+                'all n <= N (N = 14 quick, 30 thorough) with a complex dyadic coefficient; Model compared exactly (the '
                 'Model reports which of the cases 0-10 fired: histogram in the distribution; case 11 = no branch); Spec '
                 'oracle (n <= 8, and n <= 11/12 for the rare odd-odd cases 7-10): the result acts like c a_i^dagger a_j under the encoding; distinct = (n,i,j,c)')
     b = Batch(ctx, st)
     rng = rng_for(ctx.seed, 'c05-srl')
-    N = budget(ctx.tier, 14, 24)
+    N = budget(ctx.tier, 14, 30)
     NO = budget(ctx.tier, 11, 12)   # oracle bound for the rare odd-odd cases 7-10
     if ctx.drift:
         N = max(N, 18)
@@ -219,8 +223,6 @@ def stream_srl(ctx):
             st_.count('no-branch')
         if canon_op_json(impl['op']) != canon_op_json(mo['op']):
             st_.disagree(what + ': terms differ', case, impl, mo)
-        if impl['n_ops'] != mo['n_ops']:
-            st_.disagree(what + ': number of strings differs', case, impl['n_ops'], mo['n_ops'])
     for n in range(1, N + 1):
         for i in range(n):
             for j in range(n):
@@ -236,8 +238,8 @@ def stream_srl(ctx):
                     continue
                 n_ops, Q = r
                 jQ = enc_op('qubit', Q.terms)
-                if n_ops not in (2, 4):
-                    st.violate('_seeley_richard_love returned %d strings (no branch fired)' % n_ops, case, {})
+                if n_ops == 0:
+                    st.violate('_seeley_richard_love returned no strings (no branch of the elif chain fired)', case, {})
                 b.add('_seeley_richard_love', case, {'op': jQ, 'n_ops': n_ops},
                       {'op': 'c05.srl', 'i': i, 'j': j, 'coef': to_gq(c), 'n': n},
                       oracle('bk', 'fermion', n, ['one_body_term', i, j, to_gq(c)], jQ)
@@ -265,7 +267,7 @@ def stream_random(ctx):
                 'n_qubits below the operator size must raise ValueError; distinct = (operator, n_qubits)')
     b = Batch(ctx, st)
     rng = rng_for(ctx.seed, 'c05-random')
-    n_ops = budget(ctx.tier, 90, 900)
+    n_ops = budget(ctx.tier, 90, 2500)
     if ctx.drift:
         n_ops = max(n_ops, 300)
     prev = None
@@ -350,7 +352,7 @@ def stream_interaction(ctx):
                 'distinct = (tensor, n_qubits)')
     b = Batch(ctx, st)
     rng = rng_for(ctx.seed, 'c05-iop')
-    n_iop = budget(ctx.tier, 60, 500)
+    n_iop = budget(ctx.tier, 60, 900)
     if ctx.drift:
         n_iop = max(n_iop, 150)
     for k in range(n_iop):
@@ -393,7 +395,7 @@ def stream_interaction(ctx):
     # only shows for N >= 5); the Spec operator is written out from the non-zero entries only (cheap oracle)
     rng = rng_for(ctx.seed, 'c05-quartic')
     sizes = [4, 5, 5, 6, 5, 6] + ([9, 10] if ctx.tier == 'thorough' else [])
-    for k in range(budget(ctx.tier, 45, 200)):
+    for k in range(budget(ctx.tier, 45, 500)):
         N = sizes[k % len(sizes)]
         cplx = rng.random() < 0.7
         one = numpy.zeros((N, N), dtype=complex)
